@@ -297,6 +297,29 @@ static void c_valid(MPT_STRUCT(path) *p, const char *ctx)
 	VF_CHECK(rc == (int) np, "model:path_valid:count", "%s: %d pending characters reported, model has %zu", ctx, rc, np);
 	if (np) K = 1;
 }
+static void c_delchar(MPT_STRUCT(path) *p, const char *ctx)
+{
+	const MPT_STRUCT(buffer) *b = pbuffer(p);
+	size_t used = b ? b->_used : 0, plen = p->len;
+	vf_at("mpt_path_delchar");
+	vf_count("mpt_path_delchar", 1);
+	int rc = mpt_path_delchar(p);
+	if (!np) {
+		vf_count("state:delchar-nothing-pending", 1);
+		VF_CHECK(rc < 0, "model:path_delchar:accepted-nothing-pending", "%s: returned %d ('%c') although no character is pending behind the path", ctx, rc, rc > 31 ? rc : '?');
+		b = pbuffer(p);
+		VF_CHECK(p->len == plen && (!b || b->_used == used), "model:path_delchar:refused-modified", "%s: refused but path/buffer length changed (%zu -> %zu bytes used)", ctx, used, b ? b->_used : 0);
+		return;
+	}
+	VF_CHECK(rc >= 0, "model:path_delchar:refused", "%s: returned %d with %zu pending characters", ctx, rc, np);
+	VF_CHECK(rc == (int) (char) P[np - 1], "model:path_delchar:character", "%s: took back %d, the last pending character is %d", ctx, rc, (int) (char) P[np - 1]);
+	np--;
+	b = pbuffer(p);
+	VF_CHECK(b && b->_used == p->off + p->len + np, "model:path_delchar:pending-length", "%s: %zu bytes behind the path after taking one back, model has %zu", ctx,
+	         b ? b->_used - p->off - p->len : 0, np);
+	VF_CHECK(!memcmp(p->base + p->off + p->len, P, np), "model:path_delchar:pending-content", "%s: pending bytes differ from the model", ctx);
+	vf_count("outcome:delchar-took-back", 1);
+}
 struct shared { MPT_STRUCT(path) p; int n; size_t el[MAXE]; int live; };
 
 static void case_parser(vf_rng *r)
@@ -316,7 +339,7 @@ static void case_parser(vf_rng *r)
 	vf_fp_u64(0xC0 | (uint64_t) binary << 8 | (uint64_t) sep << 16);
 	for (int op = 0; op < nops; op++) {
 		char ctx[120];
-		int what = (int) vf_below(r, 12);
+		int what = (int) vf_below(r, 15);
 		size_t total = 0;
 		for (int k = 0; k < n; k++) total += el[k] + unit;
 		const MPT_STRUCT(buffer) *b = pbuffer(&p);
@@ -400,6 +423,34 @@ static void case_parser(vf_rng *r)
 			int rc = mpt_path_invalidate(&p);
 			VF_CHECK(rc >= 0, "model:path_invalidate:refused", "%s: returned %d", ctx, rc);
 			np = 0; K = 0;
+		}
+		else if (what >= 12) {
+			/* characters taken back: m added and m taken back, then the rest of what is pending, then one more (refused) */
+			int m = (int) vf_below(r, 4), identity = (!np || K);
+			size_t before = np;
+			uint8_t saved[sizeof(P)];
+			memcpy(saved, P, np);
+			snprintf(ctx, sizeof(ctx), "add %d / take back characters with %d elements, %zu pending%s", m, n, np, p.base ? "" : " (no storage)");
+			vf_log("%s", ctx);
+			vf_fp_u64(0xDC0 + (uint64_t) m);
+			if (!p.base || !(p.flags & MPT_PATHFLAG(HasArray))) {
+				/* nothing was ever added: documented refusal */
+				vf_at("mpt_path_delchar");
+				VF_CHECK(mpt_path_delchar(&p) < 0, "model:path_delchar:accepted-nothing-pending", "%s: accepted on a path without storage", ctx);
+			} else {
+				for (int k = 0; k < m; k++) c_addchar(&p, 'A' + (int) vf_below(r, 26), ctx);
+				for (int k = 0; k < m; k++) c_delchar(&p, ctx);
+				if (identity) {
+					VF_CHECK(np == before && !memcmp(saved, P, np), "model:harness", "identity expectation broken in the model");
+					vf_count("monitor:addchar-delchar-identity", 1);
+				}
+				if (vf_chance(r, 2, 3)) {
+					int extra = (n && vf_chance(r, 1, 2)) ? 2 : 1;
+					while (np) c_delchar(&p, ctx);
+					if (n) vf_count("state:delchar-nothing-pending-after-element", 1);
+					while (extra--) c_delchar(&p, ctx);   /* nothing pending: refused, path untouched */
+				}
+			}
 		}
 		else if (!sh.live && b) {
 			/* a second holder of the path data: what it sees must stay what it is */
